@@ -1088,7 +1088,156 @@ def comprehension_statements(repo):
     return count
 
 
+# ---------------------------------------------------------------- library combinators
+GETTERS = {'itemgetter': 'item', 'operator.itemgetter': 'item', 'attrgetter': 'attr', 'operator.attrgetter': 'attr'}
+
+
+def _getter_of(e, module_getters):
+    """('item' | 'attr', [constants]) for itemgetter(..) / attrgetter(..) written on the spot or
+    bound once at module level"""
+    if isinstance(e, ast.Name) and e.id in module_getters:
+        return module_getters[e.id]
+    if isinstance(e, ast.Call) and not e.keywords and e.args and all(isinstance(a, ast.Constant) for a in e.args):
+        nm = ast.unparse(e.func)
+        if nm in GETTERS:
+            kind = GETTERS[nm]
+            vals = [a.value for a in e.args]
+            if kind == 'attr' and not all(isinstance(v, str) and all(p.isidentifier() for p in v.split('.')) for v in vals):
+                return None
+            return kind, vals
+    return None
+
+
+def _apply_getter(g, x):
+    kind, vals = g
+
+    def one(v):
+        if kind == 'item':
+            return ast.Subscript(value=ast.Name(id=x, ctx=ast.Load()), slice=ast.Constant(value=v), ctx=ast.Load())
+        e = ast.Name(id=x, ctx=ast.Load())
+        for part in v.split('.'):
+            e = ast.Attribute(value=e, attr=part, ctx=ast.Load())
+        return e
+    if len(vals) == 1:
+        return one(vals[0])
+    return ast.Tuple(elts=[one(v) for v in vals], ctx=ast.Load())
+
+
+class _Combinators(ast.NodeTransformer):
+    """map(f, xs) / filter(f, xs) with f an itemgetter / attrgetter / lambda is the generator
+    expression that says the same thing; list(<generator expression>) is the list comprehension.
+    Exact: both are lazy, evaluate xs once, and apply f to each element in order."""
+
+    def __init__(self, module_getters, taken):
+        self.g = module_getters
+        self.taken = taken
+        self.n = 0
+
+    def fresh(self, base='_x'):
+        new = base
+        while new in self.taken:
+            new += '_'
+        self.taken.add(new)
+        return new
+
+    def visit_Call(self, c):
+        self.generic_visit(c)
+        nm = c.func.id if isinstance(c.func, ast.Name) else None
+        if nm == 'map' and len(c.args) == 2 and not c.keywords and not any(isinstance(a, ast.Starred) for a in c.args):
+            f, xs = c.args
+            g = _getter_of(f, self.g)
+            if g is not None:
+                v = self.fresh()
+                self.n += 1
+                return ast.copy_location(ast.GeneratorExp(elt=_apply_getter(g, v), generators=[ast.comprehension(target=ast.Name(id=v, ctx=ast.Store()), iter=xs, ifs=[], is_async=0)]), c)
+            if isinstance(f, ast.Lambda) and _plain_unary(f):
+                self.n += 1
+                return ast.copy_location(ast.GeneratorExp(elt=f.body, generators=[ast.comprehension(target=ast.Name(id=f.args.args[0].arg, ctx=ast.Store()), iter=xs, ifs=[], is_async=0)]), c)
+        if nm == 'filter' and len(c.args) == 2 and not c.keywords and not any(isinstance(a, ast.Starred) for a in c.args):
+            f, xs = c.args
+            if isinstance(f, ast.Lambda) and _plain_unary(f):
+                v = f.args.args[0].arg
+                self.n += 1
+                return ast.copy_location(ast.GeneratorExp(elt=ast.Name(id=v, ctx=ast.Load()), generators=[ast.comprehension(target=ast.Name(id=v, ctx=ast.Store()), iter=xs, ifs=[f.body], is_async=0)]), c)
+            if isinstance(f, ast.Constant) and f.value is None:
+                v = self.fresh()
+                self.n += 1
+                return ast.copy_location(ast.GeneratorExp(elt=ast.Name(id=v, ctx=ast.Load()), generators=[ast.comprehension(target=ast.Name(id=v, ctx=ast.Store()), iter=xs, ifs=[ast.Name(id=v, ctx=ast.Load())], is_async=0)]), c)
+        if nm == 'list' and len(c.args) == 1 and not c.keywords and isinstance(c.args[0], ast.GeneratorExp):
+            ge = c.args[0]
+            self.n += 1
+            return ast.copy_location(ast.ListComp(elt=ge.elt, generators=ge.generators), c)
+        return c
+
+    def visit_For(self, s):
+        self.generic_visit(s)
+        ge = s.iter
+        # for T in (E for v in XS if C): BODY   is   for v in XS: if C: T = E; BODY
+        if isinstance(ge, ast.GeneratorExp) and len(ge.generators) == 1 and not ge.generators[0].is_async:
+            g = ge.generators[0]
+            tnames = _names(g.target, (ast.Store,))
+            ren = {}
+            for t in sorted(tnames):
+                if t in self.taken:
+                    ren[t] = self.fresh(t + '__g')
+                else:
+                    self.taken.add(t)
+            elt, ifs, target = ge.elt, list(g.ifs), g.target
+            if ren:
+                r = _Rename(ren)
+                elt = r.visit(copy.deepcopy(elt))
+                ifs = [r.visit(copy.deepcopy(x)) for x in ifs]
+                target = r.visit(copy.deepcopy(target))
+            body = [ast.copy_location(ast.Assign(targets=[s.target], value=elt), s)] + s.body
+            if ifs and any(isinstance(n, (ast.Break, ast.Continue)) for st in s.body for n in ast.walk(st)):
+                pass        # (still the same loop: break / continue refer to the for either way)
+            for cond in reversed(ifs):
+                body = [ast.copy_location(ast.If(test=cond, body=body, orelse=[]), s)]
+            self.n += 1
+            new = ast.For(target=target, iter=g.iter, body=body, orelse=s.orelse)
+            return ast.fix_missing_locations(ast.copy_location(new, s))
+        return s
+
+    def visit_FunctionDef(self, n):
+        return n
+
+    visit_AsyncFunctionDef = visit_ClassDef = visit_FunctionDef
+
+
+def _plain_unary(lam):
+    a = lam.args
+    return len(a.args) == 1 and not a.posonlyargs and not a.kwonlyargs and a.vararg is None and a.kwarg is None and not a.defaults
+
+
+def lower_combinators(repo):
+    count = 0
+    for mod, info in repo.modules.items():
+        tree = info['tree']
+        bound = {}
+        for st in tree.body:
+            if isinstance(st, ast.Assign) and len(st.targets) == 1 and isinstance(st.targets[0], ast.Name):
+                bound.setdefault(st.targets[0].id, []).append(st.value)
+        stored_elsewhere = {n.id for n in ast.walk(tree) if isinstance(n, ast.Name) and isinstance(n.ctx, (ast.Store, ast.Del))}
+        getters = {}
+        for name, vals in bound.items():
+            if len(vals) == 1:
+                g = _getter_of(vals[0], {})
+                # bound once at module level and never rebound in a function through ``global``
+                if g is not None and sum(1 for n in ast.walk(tree) if isinstance(n, ast.Name) and n.id == name and isinstance(n.ctx, (ast.Store, ast.Del))) == 1 \
+                        and not any(isinstance(n, ast.Global) and name in n.names for n in ast.walk(tree)):
+                    getters[name] = g
+        for fi in repo.functions.values():
+            if fi.module != mod or not isinstance(fi.node, ast.FunctionDef):
+                continue
+            local = _assigned(fi.node) | set(_params(fi.node))
+            t = _Combinators({k: v for k, v in getters.items() if k not in local}, _assigned(fi.node) | set(_params(fi.node)) | _names(fi.node))
+            fi.node.body = [t.visit(x) for x in fi.node.body]
+            count += t.n
+    return count
+
+
 def inline_helpers(repo):
+    repo.lowered_combinators = lower_combinators(repo)
     repo.desugared_super = desugar_super(repo)
     repo.comprehension_statements = comprehension_statements(repo)
     inl = Inliner(repo).run()
